@@ -61,6 +61,9 @@ structure Facts where
   -- C16: stores of the encode / size functions that are not to the output buffer `b` or a local
   encodeForeignWriteSites : Nat
   encodeForeignWriteSiteList : List String
+  -- C16: stores of the decoder into its input slice
+  decodeInputWriteSites : Nat
+  decodeInputWriteSiteList : List String
   -- C18
   hotPathHeapSites : Nat
   hotPathHeapSiteList : List String
@@ -97,6 +100,10 @@ def descriptorsReadOnly (F : Facts) : Bool := F.descriptorWriteSites == 0
     every assignment and increment is to a local variable or to an element of the output buffer `b`,
     and every `append` / `copy` has `b` as its destination: nothing is stored through the argument -/
 def encodeWritesOnlyOutput (F : Facts) : Bool := F.encodeForeignWriteSites == 0
+
+/-- C16: no function of decoder.go / unknownfields.go assigns to an element or sub-slice of the input
+    `b`, appends to it or copies into it -/
+def decodeNeverWritesInput (F : Facts) : Bool := F.decodeInputWriteSites == 0
 
 /-- C04: `Append(buf[:0:len(buf)], v)` and `len(ret) > len(buf)` is the error test -/
 def bufferContract (F : Facts) : Bool := F.encodeCapsAtLen && F.encodeChecksLen
